@@ -35,6 +35,10 @@ class BudgetExhausted(PathAbort):
     pass
 
 
+class SplitHere(PathAbort):
+    """The path reached the split depth: its decision prefix is handed to another worker."""
+
+
 class _State:
     W = 72
     LIM = 1 << 71
@@ -701,6 +705,8 @@ class Engine:
         self.decide_first = os.environ.get("SYMX_DECIDE", "int")
         self.bv_quick_ms = 20000
         self.pref = None
+        self.split_depth = 0
+        self.forced_len = 0
         self.int_decide_ms = int(os.environ.get("SYMX_INT_MS", "10000"))
 
     # ---- variables ---------------------------------------------------------------------------
@@ -795,6 +801,8 @@ class Engine:
                 self.cur_model = None
             self.pc_bv.append(sb.bv if v else z3.Not(sb.bv))
             return v
+        if self.split_depth and i >= self.split_depth and i >= self.forced_len:
+            raise SplitHere()
         m = self._model()
         if m is not None:
             cur = z3.is_true(m.eval(sb.iv, model_completion=True))
@@ -921,8 +929,11 @@ class Engine:
         forced_prefix: list of bools; only paths that extend it are explored."""
         S.engine = self
         self.prefix = []
+        self.forced_len = 0
+        self.pending = []
         if forced_prefix:
             self.prefix = [[bool(v), False] for v in forced_prefix]
+            self.forced_len = len(forced_prefix)
         self.isolver = z3.Solver()
         self.isolver.set("timeout", self.int_timeout_ms)
         self.replay_len = -1
@@ -939,6 +950,10 @@ class Engine:
                 h()
             try:
                 outcome = ("ok", fn(self))
+            except SplitHere:
+                self.pending.append([bool(v) for v, _ in self.prefix[: self.cursor]])
+                outcome = None
+                self.stats["aborted"] -= 1
             except BudgetExhausted as ex:
                 # a path that exceeds its unwinding bound is reported only if it is really feasible
                 if self.feasible():
